@@ -331,6 +331,13 @@ func RunSub(bin string, timeoutS int, env []string, dir string, args ...string) 
 	res := SubResult{Err: err}
 	res.Stdout, _ = os.ReadFile(of.Name())
 	eb, _ := os.ReadFile(ef.Name())
+	if ee, ok := err.(*exec.ExitError); ok && (ee.ExitCode() == 124 || ee.ExitCode() == 137) && len(eb) < 2<<20 {
+		// watchdog: keep the whole goroutine dump for ClassifyHang
+		res.Stderr = string(eb)
+		res.Exit = ee.ExitCode()
+		res.TimedOut = true
+		return res
+	}
 	if len(eb) > 8000 {
 		if i := bytes.Index(eb, []byte("panic: ")); i >= 0 && len(eb)-i > 8000 {
 			eb = eb[i : i+8000]
@@ -350,4 +357,53 @@ func RunSub(bin string, timeoutS int, env []string, dir string, args ...string) 
 		res.Exit = -1
 	}
 	return res
+}
+
+// ClassifyHang inspects the goroutine dump a Go process prints on SIGQUIT (what the watchdogs send). It reports a
+// deadlock only on a state-based criterion, never on elapsed time alone: some goroutine that is inside a go-sstables
+// call made by the harness (both kinds of frames on its stack) has been blocked in a synchronisation primitive for at
+// least a minute, and NO goroutine with a go-sstables frame is running, runnable, in a system call or sleeping - i.e.
+// nothing in the library can make progress any more. Anything else stays inconclusive.
+func ClassifyHang(dump string) (sig string, deadlock bool) {
+	if !strings.Contains(dump, "goroutine ") {
+		return "", false
+	}
+	blocks := strings.Split(dump, "\n\n")
+	blockedStates := []string{"semacquire", "sync.Mutex.Lock", "sync.RWMutex.Lock", "sync.RWMutex.RLock", "chan send", "chan receive", "select", "sync.WaitGroup.Wait", "sync.Cond.Wait"}
+	stuckClient := ""
+	for _, b := range blocks {
+		b = strings.TrimSpace(b)
+		if !strings.HasPrefix(b, "goroutine ") {
+			continue
+		}
+		if !strings.Contains(b, "github.com/thomasjungblut/go-sstables/") {
+			continue
+		}
+		hdr := b
+		if i := strings.Index(b, "\n"); i > 0 {
+			hdr = b[:i]
+		}
+		st := ""
+		if i := strings.Index(hdr, "["); i >= 0 {
+			if j := strings.Index(hdr, "]"); j > i {
+				st = hdr[i+1 : j]
+			}
+		}
+		isBlocked := false
+		for _, s := range blockedStates {
+			if strings.HasPrefix(st, s) {
+				isBlocked = true
+			}
+		}
+		if !isBlocked {
+			return "", false // something in the library is still running / in a syscall / sleeping
+		}
+		if strings.Contains(b, "verif/internal/props") && strings.Contains(st, "minutes") && stuckClient == "" {
+			stuckClient = PanicSite(b)
+		}
+	}
+	if stuckClient == "" {
+		return "", false
+	}
+	return stuckClient, true
 }
